@@ -170,8 +170,12 @@ def unrank_oracle(d: DFA, k: int, choices, bwk):
 
 
 def prop_random(d: DFA, k: int, seed: int, bwk):
-    out = []
+    """Property level: the result is an accepted word of length k / ValueError iff none exists.
+    Implementation level (returned separately, a correspondence matter): the recorded randint
+    draws have the expected shape and select the word dictated by count-weighted unranking."""
+    out, impl = [], []
     r, choices, log = L.random_word_recorded(fresh(d), k, seed)
+    other_api = L.RecordingRandom.other_api
     if not bwk:
         if r != ("err", "ValueError"):
             out.append(f"random_word({k}) = {r} although no word of length {k} is accepted (ValueError expected)")
@@ -182,14 +186,16 @@ def prop_random(d: DFA, k: int, seed: int, bwk):
             w = r[1]
             if len(w) != k or not d.accepts_input(w):
                 out.append(f"random_word({k}, seed={seed}) = {w!r} is not an accepted word of length {k}")
+            elif other_api:
+                impl.append(f"random_word({k}) draws through an RNG method other than randint")
             else:
                 exp = unrank_oracle(d, k, choices, bwk)
                 if exp != w:
-                    out.append(f"random_word({k}, seed={seed}) with randint results {choices} = {w!r}; "
-                               f"count-weighted unranking over the language gives {exp!r}")
-            if any(not (a == 0 and r_ <= b) for a, b, r_ in log) or len(log) != k:
-                out.append(f"random_word({k}) drew {log} (expected {k} draws from ranges starting at 0)")
-    return out, r, choices
+                    impl.append(f"random_word({k}, seed={seed}) with randint results {choices} = {w!r}; "
+                                f"count-weighted unranking over the language gives {exp!r}")
+                if any(not (a == 0 and r_ <= b) for a, b, r_ in log) or len(log) != k:
+                    impl.append(f"random_word({k}) drew {log} (expected {k} draws from ranges starting at 0)")
+    return out, r, choices, impl
 
 
 def prop_uniform(d: DFA, k: int, bwk):
@@ -309,9 +315,12 @@ def check_dfa(ctx: Ctx, d: DFA, origin: str, *, uniform: bool = False, light: bo
         for trial in range(1 if light else 2):
             seed = rng.randrange(1 << 30)
             ctx.case(("random", enc, k, seed) if nontrivial else None)
-            bad, r, choices = prop_random(d, k, seed, bw[k])
+            bad, r, choices, impl = prop_random(d, k, seed, bw[k])
             for b in bad:
                 fail(ctx, d, "random", dict(k=k, seed=seed), b)
+            for b in impl:
+                ctx.stat("random:implementation_level_difference")
+                ctx.corr_diff("RANDOM draws", dict(automaton=repr(d), k=k, seed=seed), b, "randint per step, count-weighted edge choice in row order")
             t = Toks(ctx.driver(L.DRV).ask(toks("RANDOM", enc, k, len(choices), choices)))
             m = t.res(lambda: "".join(sy.back(c) for c in t.ints()))
             ctx.stat("random:valueerror" if r[0] == "err" else "random:word")
